@@ -3,6 +3,7 @@ package main
 import (
 	"fmt"
 	"os"
+	"sort"
 	"strings"
 	"time"
 
@@ -16,6 +17,10 @@ func c06(c *h.Ctx) {
 	c.Exhaustive = true
 	c.Extra("exhaustive_subspace", "the 3024-shape grammar of the quantifier; larger tasks are seeded")
 	runWorkers(c, workerOpts{Mode: "task", Shards: 8, Timeout: 20 * time.Minute})
+	// twelve tasks at a time on one runner (parallel stages share the runner and its compiler), also under the race detector
+	anchors := []string{"pkg/runner/runner.go", "pkg/runner/compiler.go", "pkg/executor/executor.go", "pkg/task/task.go"}
+	runWorkers(c, workerOpts{Mode: "taskpar", Shards: 8, Timeout: 20 * time.Minute})
+	runWorkers(c, workerOpts{Mode: "taskpar", Race: true, Shards: 8, Timeout: 20 * time.Minute, Anchors: anchors})
 }
 
 func c07(c *h.Ctx) {
@@ -37,8 +42,28 @@ func c07cli(c *h.Ctx) {
 		{K: "pok", V: []interface{}{gen.OM{{K: "task", V: "pa"}}, gen.OM{{K: "task", V: "pb"}, {K: "depends_on", V: []interface{}{"pa"}}}}},
 		{K: "pbad", V: []interface{}{gen.OM{{K: "task", V: "pc"}}, gen.OM{{K: "task", V: "pd"}, {K: "depends_on", V: []interface{}{"pc"}}}}},
 	}
+	// a pipeline whose failing stage finishes first while an independent stage succeeds later
+	tasks.Set("pe", gen.OM{{K: "command", V: []interface{}{"printf 'pe\\n' >> \"$TRACE\"; exit 3"}}})
+	tasks.Set("pf", gen.OM{{K: "command", V: []interface{}{"sleep 0.3; printf 'pf\\n' >> \"$TRACE\""}}})
+	pipes.Set("pfan", []interface{}{gen.OM{{K: "task", V: "pe"}}, gen.OM{{K: "task", V: "pf"}}})
 	cfg := gen.OM{{K: "tasks", V: tasks}, {K: "pipelines", V: pipes}}
 	h.WriteFile(dir+"/tasks.yaml", gen.YAML(cfg))
+	for rep, form := range [][]string{{"pfan", "ok1"}, {"run", "pfan", "ok1"}, {"pfan"}} {
+		trace := fmt.Sprintf("%s/trace.fan%d", dir, rep)
+		args := append([]string{"-o", "raw"}, form...)
+		res := tc{Dir: dir, Env: []string{"TRACE=" + trace}}.run(c, args...)
+		c.Eval(1)
+		got := strings.Fields(h.ReadFile(trace))
+		sort.Strings(got)
+		cas := map[string]interface{}{"argv": args, "exit": res.Exit, "trace": got}
+		if strings.Join(got, " ") != "pe pf" {
+			c.Violate("cli-ran-after-failed-target", fmt.Sprintf("`taskctl %s`: a stage fails first, an independent stage succeeds later: ran %v, want [pe pf] and nothing after", strings.Join(args, " "), got), cas)
+		}
+		if res.Exit == 0 {
+			c.Violate("cli-exit-status", fmt.Sprintf("`taskctl %s` exited 0 although stage pe failed (a stage that succeeded later must not erase the failure)", strings.Join(args, " ")), cas)
+		}
+		c.Nontrivial("fan" + strings.Join(args, " "))
+	}
 	tokens := map[string][]string{"ok1": {"ok1"}, "ok2": {"ok2"}, "bad": {"bad"}, "pok": {"pa", "pb"}, "pbad": {"pc"}}
 	fails := map[string]bool{"bad": true, "pbad": true}
 	isTask := map[string]bool{"ok1": true, "ok2": true, "bad": true}
